@@ -80,8 +80,23 @@ const miniXML = `{
 }`
 const miniXMLInput = `<?xml version="1.0"?><root><rec id="a"><qty>1</qty><tag>x</tag><tag>y</tag></rec><rec id="b"><qty>2</qty></rec><rec id="c"><qty>bad</qty></rec><rec id="d"><qty>4</qty><tag>&amp;é</tag></rec></root>`
 
+// per-record failures of every kind a transform can produce, between records that succeed: a cast that fails, a value
+// that casts but cannot be rendered as JSON (NaN / infinities), a custom function that returns an error, a script that throws
+const miniFailKinds = `{
+ "parser_settings": {"version": "omni.2.1", "file_format_type": "csv"},
+ "file_declaration": {"delimiter": ",", "header_row_index": 1, "data_row_index": 2,
+   "columns": [{"name": "id"}, {"name": "f"}, {"name": "d"}, {"name": "s"}]},
+ "transform_declarations": {"FINAL_OUTPUT": {"object": {
+   "id": {"xpath": "id"}, "f": {"xpath": "f", "type": "float"},
+   "d": {"custom_func": {"name": "dateTimeToRFC3339", "args": [{"xpath": "d"}, {"const": ""}, {"const": ""}]}},
+   "s": {"custom_func": {"name": "javascript", "args": [{"const": "if (s == 'boom') { throw 'boom' }; s + '!'"}, {"const": "s"}, {"xpath": "s"}]}}}}}
+}`
+const miniFailKindsInput = "id,f,d,s\n1,1.5,2020-01-01,a\n2,NaN,2020-01-02,b\n3,2.5,notadate,c\n4,-Inf,2020-01-04,d\n5,3.5,2020-01-05,boom\n" +
+	"6,Infinity,2020-01-06,f\n7,x,2020-01-07,g\n8,1e999,2020-01-08,h\n9,4.5,2020-01-09,i\n"
+
 func miniSamples() []Sample {
 	return []Sample{
+		{"mini/failkinds", "csv", []byte(miniFailKinds), []byte(miniFailKindsInput)},
 		{"mini/csv", "csv", []byte(miniCSV), []byte(miniCSVInput)},
 		{"mini/csv2", "csv2", []byte(miniCSV2), []byte(miniCSV2Input)},
 		{"mini/fixedlength", "fixedlength", []byte(miniFixed), []byte(miniFixedInput)},
